@@ -35,7 +35,8 @@ claims.update({
  'C17': ('model_checking', "Two writers, a reader and an optional tail-side / whole-range deleter on the real Store: monotone Head/Height, Head retrievable, read-your-synced-writes, equality with a sequential execution, gap-free chain after racing deletion.", "Sequentially consistent interleavings with pre-emption at datastore operations only (bound 1 quick; 2-3 thorough); 3-4 writers, real-thread schedules and the race detector are outside this technique."),
  'C18': ('model_checking', "Client session code composed with the real ExchangeServer.handleRangeRequest as each peer's behaviour: every range length 1..3 x chunk, chunk sizes {1,2,3} ({..5,64} thorough), 1-2 (3) peers, every availability prefix and benign fault (prefix once, timeout once, disconnect, stall after a prefix) with one fault-free capable peer.", "Wire encoding (serde/protobuf) and libp2p streams are not encoded: the 'unchanged through the wire' clause is covered only up to the HeaderResponse structs."),
 })
-for k in ['C03','C05','C06','C07','C12','C17','C18']:
+claims['C19'] = ('model_checking', "One Head() call from an arbitrary reachable state (stored prefix of a chain with symbolic ages, optional gossip head, optional clock advance, every Parameters value in range) with any getter answer (error, fresh, stale, expired, lower header): zero / exactly one request, trusted head carried, no expired initialisation, no downgrade; monotonicity across calls follows by induction from 'result >= subjective head at entry' and 'subjective head never moves backwards'.", "Durations and ages below 2^40 ns; sequences of calls only by induction; concurrent single-flight callers are outside (two-call exploration did not finish in 40 min).")
+for k in ['C03','C05','C06','C07','C12','C17','C18','C19']:
     pending.pop(k, None)
 checks=[]
 for pid,(cat,text,note) in sorted(claims.items()):
